@@ -7,8 +7,11 @@ import time
 
 VERIF = os.path.dirname(os.path.dirname(os.path.abspath(__file__)))
 REPO = os.environ.get("VERIF_REPO", "/repo")
-WORK = os.path.join(VERIF, ".build", "work")
-BIN = os.path.join(VERIF, ".build", "bin")
+# VERIF_SCRATCH (used only when trying the checks against a mutated copy of the repository) redirects every output
+# -- build tree, evidence, replays -- away from /verif so that such a run cannot disturb the real ones
+OUT = os.environ.get("VERIF_SCRATCH") or VERIF
+WORK = os.path.join(OUT, ".build", "work")
+BIN = os.path.join(OUT, ".build", "bin")
 NCPU = int(os.environ.get("VERIF_JOBS", "16"))
 
 sys.path.insert(0, os.path.join(VERIF, "tools"))
@@ -88,8 +91,8 @@ class Evidence:
             "wall_s": round(time.time() - self.t0, 2),
             "violations": self.violations,
         }
-        os.makedirs(os.path.join(VERIF, "evidence"), exist_ok=True)
-        p = os.path.join(VERIF, "evidence", self.pid + ".json")
+        os.makedirs(os.path.join(OUT, "evidence"), exist_ok=True)
+        p = os.path.join(OUT, "evidence", self.pid + ".json")
         with open(p + ".tmp", "w") as f:
             json.dump(doc, f, indent=1, sort_keys=True, default=str)
         os.replace(p + ".tmp", p)
@@ -98,7 +101,7 @@ class Evidence:
 
 def save_replay(pid, doc, raw=None, ext="json"):
     """Write a replay file under replays/<pid>/ named by content hash; returns its path."""
-    d = os.path.join(VERIF, "replays", pid)
+    d = os.path.join(OUT, "replays", pid)
     os.makedirs(d, exist_ok=True)
     if raw is not None:
         body = raw
